@@ -4,6 +4,7 @@ import (
 	"bufio"
 	"encoding/json"
 	"fmt"
+	"math/rand"
 	"os"
 
 	"verif/harness/vapp"
@@ -38,7 +39,21 @@ func subsysMode(args []string) {
 		} else {
 			scs[i] = makeScenario(c, i)
 		}
-		trs[i], errs[i] = vapp.Materialise(scs[i], vapp.RunOpts{Identity: "v1", WantState: true})
+		opts := vapp.RunOpts{Identity: "v1", WantState: true}
+		if spec == "Rewards" {
+			// the node is stopped after a commit and started again at one or two heights of every history (C13: the
+			// block reward must not depend on when, within a calculation cycle, the node was restarted)
+			rng := rand.New(rand.NewSource(int64(c.seed)*7919 + int64(i)))
+			opts.Restart = map[int64]string{}
+			for k := 0; k < 2+rng.Intn(3); k++ {
+				h := int64(2 + rng.Intn(len(scs[i].Blocks)-2))
+				if k == 0 && h%3 == 0 {
+					h++ // at least one restart inside a calculation cycle (the cycle of the workload genesis is three blocks)
+				}
+				opts.Restart[h] = "commit"
+			}
+		}
+		trs[i], errs[i] = vapp.Materialise(scs[i], opts)
 	})
 	f, err := os.Create(c.out)
 	if err != nil {
